@@ -336,9 +336,11 @@ def run(ctx):
         c["stack"] = c["stack"][:4]
     cases += nested
     cases += [malformed_case(i, raw, mode) for i, (raw, mode) in enumerate(MALFORMED)]
-    results = []
-    for i in range(0, len(cases), 400):
-        results += json.loads(ctx.impl("impl_mod.py", {"cases": cases[i:i + 400]}))
+    from concurrent.futures import ThreadPoolExecutor
+    chunks = [cases[i:i + 60] for i in range(0, len(cases), 60)]
+    with ThreadPoolExecutor(max_workers=8) as ex:
+        outs = list(ex.map(lambda t: ctx.impl("impl_mod.py", {"cases": t[1], "tag": f"c{t[0]}"}), enumerate(chunks)))
+    results = [x for o in outs for x in json.loads(o)]
     assert len(results) == len(cases)
 
     # ---- model side
@@ -355,9 +357,11 @@ def run(ctx):
                            {"program": res["source"], "expected": "a GuppyError", "observed": "compiled", "replay": replay_cmd(ctx, res["source"])})
             continue
         if "error" in res or "read_error" in res:
-            ctx.report("compile-failed:" + key, "counterexample", "valid modifier program not compiled / HUGR not readable",
-                       {"program": res["source"], "error": res.get("error"), "diag": res.get("diag"), "read_error": res.get("read_error"),
-                        "replay": replay_cmd(ctx, res["source"])})
+            stats["compile_failed"] = stats.get("compile_failed", 0) + 1
+            if stats["compile_failed"] <= 2:
+                ctx.report("compile-failed:" + key, "counterexample", "valid modifier program not compiled / HUGR not readable",
+                           {"program": res["source"], "error": res.get("error"), "diag": res.get("diag"), "read_error": res.get("read_error"),
+                            "replay": replay_cmd(ctx, res["source"])})
             continue
         stats["compiled"] += 1
         stats["check_hugr_ok"] += res["check_hugr"] == "ok"
@@ -373,7 +377,8 @@ def run(ctx):
                     [[m[1]] if m[0] == "control_arr" else m[1] for m in case["stack"] if m[0] in ("control", "control_arr")],
                     [m[1] if not m[1].isdigit() else int(m[1]) for m in case["stack"] if m[0] == "power"])
             got = (g["ndagger"], [c["ctrl"] for c in g["control"]], g["power"])
-            if want != got:
+            if want != got and stats.setdefault("grouping_failures", 0) < 2:
+                stats["grouping_failures"] += 1
                 ctx.report("grouping:" + key, "counterexample", "visit_With/push_modifier grouped the items differently from source order per kind",
                            {"program": res["source"], "expected": want, "observed": got, "replay": replay_cmd(ctx, res["source"])})
             L = len(case["stack"])
@@ -469,7 +474,7 @@ def run(ctx):
         ctx.report("proof-broken:" + str(info["failed"]), "proof-broken", str(info["failed"]),
                    {"coq_error": vlib.CoqResult(False, info["log"]).error_excerpt(), "searched_programs": len(flat),
                     "generated_constants": (vlib.COQ / "C25" / "GenOrder.v").read_text()[-900:]}, found_input=False)
-    if model is None and info["ok"] and flat:
+    if model is None and info["ok"] and flat and gen_error is None:
         ctx.report("model-eval", "correspondence", "model could not be evaluated", {"notes": ctx.notes}, found_input=False)
 
     cov = proof_coverage(
